@@ -1,0 +1,367 @@
+//! Verification facade, compiled only with `--cfg transparencies_stretto_verif` (the checks in
+//! `/verif`).  Read-only views of crate-private state and thin wrappers that make the crate-private
+//! components (`Bloom`, `CountMinRow`, `CountMinSketch`, `TinyLFU`, `LFUPolicy`) drivable from
+//! outside.  Nothing in here changes behaviour.
+
+pub use stretto_verif_rt as rt;
+
+use crate::bbloom::Bloom;
+use crate::policy::{PolicyInner, PolicyPair, TinyLFU};
+use crate::sketch::{CountMinRow, CountMinSketch};
+use crate::{CacheCallback, CacheError, Coster, KeyBuilder, Metrics, UpdateValidator};
+use std::cell::RefCell;
+use std::hash::{BuildHasher, Hash};
+use std::rc::Rc;
+use std::sync::Arc;
+
+/// A physically resident store entry.
+#[derive(Clone, Debug, PartialEq, Eq)]
+pub struct EntrySnap<V> {
+    pub index: u64,
+    pub conflict: u64,
+    pub value: V,
+    /// ttl in ns (0 = none)
+    pub d_ns: u128,
+    /// creation instant, ns of the virtual clock
+    pub created_ns: u128,
+}
+
+#[derive(Clone, Debug, PartialEq, Eq, Default)]
+pub struct PolicySnap {
+    pub used: i64,
+    pub max_cost: i64,
+    /// per-key charges, in the map's iteration order
+    pub key_costs: Vec<(u64, i64)>,
+}
+
+/// One round of the eviction loop of `policy.add`.
+#[derive(Clone, Debug, PartialEq, Eq)]
+pub struct EvictRound {
+    pub sample: Vec<(u64, i64)>,
+    pub min_key: u64,
+    pub min_hits: i64,
+    pub inc_hits: i64,
+    pub room: i64,
+}
+
+#[derive(Clone, Debug, PartialEq, Eq)]
+pub struct TinySnap {
+    pub w: usize,
+    pub samples: usize,
+    pub seeds: [u64; 4],
+    pub mask: u64,
+    pub row_bytes: usize,
+    pub counters: Vec<Vec<u8>>,
+}
+
+thread_local! {
+    static EVICT_LOG: RefCell<Vec<EvictRound>> = const { RefCell::new(Vec::new()) };
+}
+
+pub(crate) fn evict_round(sample: &[PolicyPair], min_key: u64, min_hits: i64, inc_hits: i64, room: i64) {
+    EVICT_LOG.with(|l| {
+        l.borrow_mut().push(EvictRound {
+            sample: sample.iter().map(|p| (p.key, p.cost)).collect(),
+            min_key,
+            min_hits,
+            inc_hits,
+            room,
+        })
+    });
+}
+
+/// Drain the eviction rounds observed on this OS thread since the last call.
+pub fn take_evict_rounds() -> Vec<EvictRound> {
+    EVICT_LOG.with(|l| std::mem::take(&mut *l.borrow_mut()))
+}
+
+fn tiny_snap(t: &TinyLFU) -> TinySnap {
+    let (w, samples) = t.verif_window();
+    let (seeds, mask, row_bytes, counters) = t.verif_sketch().verif_parts();
+    TinySnap {
+        w,
+        samples,
+        seeds,
+        mask,
+        row_bytes,
+        counters,
+    }
+}
+
+macro_rules! impl_facade {
+    ($cache: ident, $policy: ident) => {
+        impl<K, V, KH, C, U, CB, S> crate::$cache<K, V, KH, C, U, CB, S>
+        where
+            K: Hash + Eq,
+            V: Send + Sync + 'static,
+            KH: KeyBuilder<Key = K>,
+            C: Coster<Value = V>,
+            U: UpdateValidator<Value = V>,
+            CB: CacheCallback<Value = V>,
+            S: BuildHasher + Clone + 'static + Send + Sync,
+        {
+            /// visit every physically resident entry (expired or not)
+            pub fn verif_visit(&self, f: &mut dyn FnMut(u64, u64, &V, u128, u128)) {
+                self.store.verif_entries(&mut |k, c, v, t| {
+                    let (d, created) = t.verif_parts();
+                    f(k, c, v, d, created)
+                });
+            }
+
+            pub fn verif_entries(&self) -> Vec<EntrySnap<V>>
+            where
+                V: Clone,
+            {
+                let mut out = Vec::new();
+                self.verif_visit(&mut |index, conflict, v, d_ns, created_ns| {
+                    out.push(EntrySnap {
+                        index,
+                        conflict,
+                        value: v.clone(),
+                        d_ns,
+                        created_ns,
+                    })
+                });
+                out.sort_by_key(|e| (e.index, e.conflict));
+                out
+            }
+
+            pub fn verif_policy(&self) -> PolicySnap {
+                let (used, max_cost, key_costs) = self.policy.inner.lock().verif_snap();
+                PolicySnap {
+                    used,
+                    max_cost,
+                    key_costs,
+                }
+            }
+
+            /// expiry buckets, sorted by bucket number and key
+            pub fn verif_buckets(&self) -> Vec<(i64, Vec<(u64, u64)>)> {
+                let mut b = self.store.verif_buckets();
+                b.iter_mut().for_each(|(_, v)| v.sort());
+                b.sort();
+                b
+            }
+
+            pub fn verif_estimate(&self, hashed: u64) -> i64 {
+                self.policy.inner.lock().verif_admit().estimate(hashed)
+            }
+
+            pub fn verif_tinylfu(&self) -> TinySnap {
+                tiny_snap(self.policy.inner.lock().verif_admit())
+            }
+
+            pub fn verif_item_size(&self) -> usize {
+                self.store.item_size()
+            }
+
+            pub fn verif_is_closed(&self) -> bool {
+                self.is_closed.load(std::sync::atomic::Ordering::SeqCst)
+            }
+
+            /// `f` runs at every unlock of the policy mutex, while it is still held: it sees the
+            /// policy state exactly as every policy operation left it.
+            pub fn verif_observe_policy(&self, f: Rc<dyn Fn(PolicySnap)>) {
+                let ptr = self.policy.inner.data_ptr() as *const PolicyInner<S>;
+                rt::obs::register(
+                    ptr as *const (),
+                    Rc::new(move || {
+                        let (used, max_cost, key_costs) = unsafe { (*ptr).verif_snap() };
+                        f(PolicySnap {
+                            used,
+                            max_cost,
+                            key_costs,
+                        })
+                    }),
+                );
+            }
+        }
+    };
+}
+
+#[cfg(feature = "sync")]
+impl_facade!(Cache, LFUPolicy);
+#[cfg(feature = "async")]
+impl_facade!(AsyncCache, AsyncLFUPolicy);
+
+/// `size_of::<StoreItem<V>>()`: the per-entry internal cost.
+pub fn item_size<V>() -> usize {
+    std::mem::size_of::<crate::store::StoreItem<V>>()
+}
+
+// ------------------------------------------------------------------------------------------------
+// component wrappers
+
+pub struct VBloom(Bloom);
+impl VBloom {
+    pub fn new(cap: usize, false_positive_ratio: f64) -> Self {
+        VBloom(Bloom::new(cap, false_positive_ratio))
+    }
+    pub fn add(&mut self, h: u64) {
+        self.0.add(h)
+    }
+    pub fn contains(&self, h: u64) -> bool {
+        self.0.contains(h)
+    }
+    pub fn contains_or_add(&mut self, h: u64) -> bool {
+        self.0.contains_or_add(h)
+    }
+    pub fn reset(&mut self) {
+        self.0.reset()
+    }
+    pub fn clear(&mut self) {
+        self.0.clear()
+    }
+}
+
+pub struct VRow(CountMinRow);
+impl VRow {
+    pub fn new(width_bytes: u64) -> Self {
+        VRow(CountMinRow::new(width_bytes))
+    }
+    pub fn get(&self, i: u64) -> u8 {
+        self.0.get(i)
+    }
+    pub fn increment(&mut self, i: u64) {
+        self.0.increment(i)
+    }
+    pub fn reset(&mut self) {
+        self.0.reset()
+    }
+    pub fn clear(&mut self) {
+        self.0.clear()
+    }
+}
+
+pub struct VSketch(CountMinSketch);
+impl VSketch {
+    pub fn new(ctrs: u64) -> Result<Self, CacheError> {
+        CountMinSketch::new(ctrs).map(VSketch)
+    }
+    pub fn increment(&mut self, h: u64) {
+        self.0.increment(h)
+    }
+    pub fn estimate(&self, h: u64) -> i64 {
+        self.0.estimate(h)
+    }
+    pub fn reset(&mut self) {
+        self.0.reset()
+    }
+    pub fn clear(&mut self) {
+        self.0.clear()
+    }
+    /// (seeds, mask, row width in bytes, counters row by row)
+    pub fn parts(&self) -> ([u64; 4], u64, usize, Vec<Vec<u8>>) {
+        self.0.verif_parts()
+    }
+}
+
+pub struct VTinyLfu(TinyLFU);
+impl VTinyLfu {
+    pub fn new(num_ctrs: usize) -> Result<Self, CacheError> {
+        TinyLFU::new(num_ctrs).map(VTinyLfu)
+    }
+    pub fn estimate(&self, h: u64) -> i64 {
+        self.0.estimate(h)
+    }
+    pub fn increment(&mut self, h: u64) {
+        self.0.increment(h)
+    }
+    pub fn increments(&mut self, hs: Vec<u64>) {
+        self.0.increments(hs)
+    }
+    pub fn clear(&mut self) {
+        self.0.clear()
+    }
+    pub fn contains(&self, h: u64) -> bool {
+        self.0.contains(h)
+    }
+    pub fn doorkeeper_contains(&self, h: u64) -> bool {
+        self.0.verif_doorkeeper().contains(h)
+    }
+    pub fn sketch_estimate(&self, h: u64) -> i64 {
+        self.0.verif_sketch().estimate(h)
+    }
+    pub fn snap(&self) -> TinySnap {
+        tiny_snap(&self.0)
+    }
+}
+
+/// An `LFUPolicy` without its background thread: the real `add / update / remove / clear /
+/// update_max_cost` code driven synchronously (the receivers of its queues are kept alive here).
+#[cfg(feature = "sync")]
+pub struct VPolicy<S: BuildHasher + Clone + 'static> {
+    pub(crate) p: crate::policy::LFUPolicy<S>,
+    _items_rx: crate::sync::Receiver<Vec<u64>>,
+    _stop_rx: crate::sync::Receiver<()>,
+}
+
+#[cfg(feature = "sync")]
+impl<S: BuildHasher + Clone + 'static> VPolicy<S> {
+    pub fn detached(ctrs: usize, max_cost: i64, hasher: S, metrics: bool) -> Result<Self, CacheError> {
+        let inner = PolicyInner::verif_new(ctrs, max_cost, hasher)?;
+        let (items_tx, items_rx) = crate::sync::bounded(3);
+        let (stop_tx, stop_rx) = crate::sync::stop_channel();
+        let mut p = crate::policy::LFUPolicy {
+            inner,
+            items_tx,
+            stop_tx,
+            is_closed: Default::default(),
+            metrics: Arc::new(Metrics::new()),
+        };
+        if metrics {
+            p.collect_metrics(Arc::new(Metrics::new_op()));
+        }
+        Ok(VPolicy {
+            p,
+            _items_rx: items_rx,
+            _stop_rx: stop_rx,
+        })
+    }
+    pub fn add(&self, key: u64, cost: i64) -> (Option<Vec<(u64, i64)>>, bool) {
+        let (v, added) = self.p.add(key, cost);
+        (v.map(|v| v.into_iter().map(|p| (p.key, p.cost)).collect()), added)
+    }
+    pub fn update(&self, key: u64, cost: i64) {
+        self.p.update(&key, cost)
+    }
+    pub fn remove(&self, key: u64) {
+        self.p.remove(&key)
+    }
+    pub fn contains(&self, key: u64) -> bool {
+        self.p.contains(&key)
+    }
+    pub fn cost(&self, key: u64) -> i64 {
+        self.p.cost(&key)
+    }
+    pub fn cap(&self) -> i64 {
+        self.p.cap()
+    }
+    pub fn clear(&self) {
+        self.p.clear()
+    }
+    pub fn max_cost(&self) -> i64 {
+        self.p.max_cost()
+    }
+    pub fn update_max_cost(&self, mc: i64) {
+        self.p.update_max_cost(mc)
+    }
+    /// record accesses exactly like the policy worker does
+    pub fn record(&self, keys: Vec<u64>) {
+        self.p.inner.lock().verif_admit_mut().increments(keys)
+    }
+    pub fn estimate(&self, key: u64) -> i64 {
+        self.p.inner.lock().verif_admit().estimate(key)
+    }
+    pub fn snap(&self) -> PolicySnap {
+        let (used, max_cost, key_costs) = self.p.inner.lock().verif_snap();
+        PolicySnap {
+            used,
+            max_cost,
+            key_costs,
+        }
+    }
+    pub fn metrics(&self) -> Arc<Metrics> {
+        self.p.metrics.clone()
+    }
+}
